@@ -221,6 +221,12 @@ class Tree:
         kids = rng.randint(0, 3) if depth < max_depth else 0
         if depth == 0:
             kids = max(1, kids)
+        shape = rng.random() if depth else 1.0
+        if shape < 0.06:
+            # a target that exists and holds nothing
+            self.feats.add('target.empty')
+            self.files[url] = []
+            return
         for _ in range(kids):
             kind, form = rng.choice(self.href_forms)
             href = form % ('f%d' % self.new())
@@ -237,7 +243,12 @@ class Tree:
             elif target not in self.files:
                 self.build(target, depth + 1, max_depth)
         special = rng.random()
-        for _ in range(rng.randint(1, 3)):
+        nstyles = rng.randint(1, 3)
+        if shape < 0.12 and kids:
+            # nothing of its own, only what it imports
+            self.feats.add('target.imports-only')
+            nstyles, special = 0, 1.0
+        for _ in range(nstyles):
             sid = 's%d' % self.new()
             urls = []
             for _ in range(rng.randint(0, 2)):
